@@ -99,3 +99,15 @@ Example C18_nonvacuous_tests :
   contains_gtid ex_set {| g_sid := ex_u 255; g_seq := 2 ^ 63 - 1 |} = true /\
   contains_gtid ex_set {| g_sid := ex_u 0; g_seq := 6 |} = false.
 Proof. repeat split; vm_compute; reflexivity. Qed.
+
+(* ---------------------------------------------------------------------------------------------------------------
+   Tie to the source of the interval test.  Contains walks both interval lists and asks, for each interval of the
+   argument, whether one interval of the receiver contains it (interval.contains); gotrans translates that method
+   on every run (gen/TransGtid.v) and the translation is iv_contains, the test the model's walk uses. *)
+From GB Require Base.GoSem Proofs.TransEquivGtid.
+From GBGen Require TransGtid.
+Theorem C18_tie_interval_contains : forall i o,
+  GoSem.res_sim (TransGtid.interval_contains_g (TransEquivGtid.interval_of i) (TransEquivGtid.interval_of o))
+                (Ok (iv_contains i o)).
+Proof. exact TransEquivGtid.interval_contains_equiv. Qed.
+Print Assumptions C18_tie_interval_contains.
